@@ -133,7 +133,29 @@ BigCases == {[kind |-> "seq", disk |-> BigDisk, label |-> "big",
                                        C("FlushArchive", 2, "", 0, 0), C("OpenFileEx", 2, "f3", 0, 0), C("ReadFile", 4, "", 9001, 0) >>]]}
 \* lock discipline: one call of every function on every handle class, run with the lock tracer of the driver
 LockOrderCases == {ECase(<<CallRec(c)>>, "lockorder") : c \in Reduced}
-EnumCases == <<FillCase>> \o SetToSeq(LockOrderCases) \o SetToSeq(ThreeArch) \o SetToSeq(AllocChains) \o SetToSeq(BigCases)
+\* forged handles derived from LIVE handles (1 = archive, 2 = writable archive, 3 = file, 4 = search): hf = 1: h | 1<<32,
+\* 2: h | 1<<63, 3: h + 7<<32, 4: h | 0xFFFFFFFF00000000, 5: h + 1<<16, 6: h + 1<<31.  Every entry point must answer
+\* invalid, and the live handles must be unaffected (probed afterwards).
+CF(c, hf) == [fn |-> c[1], h |-> c[2], name |-> c[3], n1 |-> c[4], n2 |-> c[5], dat |-> c[6], hf |-> hf]
+HandleFns == Fns \ {"OpenArchive"}
+LiveProbes == << C("GetFileSize", 3, "", 0, 0), C("FindNext", 4, "", 0, 0), C("HasFile", 1, "f0", 0, 0), C("GetFileInfo", 2, "", 2, 4),
+                C("ReadFile", 3, "", 1, 0) >>
+ForgedCases == {[kind |-> "seq", disk |-> DiskJ, setup |-> Setup, label |-> "forged",
+                 prog |-> [T1 |-> [i \in 1..4 |-> CF(CHOOSE c \in ECalls(fn, FALSE) : c[2] = i, hf)] \o LiveProbes]]
+                   : fn \in HandleFns, hf \in 1..6}
+\* archived names of 259, 260, 261 and 1024 bytes around the MAX_PATH (260) arrays of the API
+LongNames == <<"n259", "n260", "n261", "n1024">>
+LongDisk == [DiskJ EXCEPT !["A"] = [x \in Names |-> CASE x = "n259" -> <<1>> [] x = "n260" -> <<2>> [] x = "n261" -> <<3>>
+                                                     [] x = "n1024" -> <<4>> [] OTHER -> DiskJ["A"][x]]]
+LongCases == {[kind |-> "seq", disk |-> LongDisk, label |-> "longname",
+               setup |-> << C("OpenArchive", 0, "A", 0, 0), C("FindFirst", 1, "", 0, 0) >>,
+               prog |-> [T1 |-> [i \in 1..9 |-> C("FindNext", 2, "", 0, 0)] \o << C("EnumFiles", 1, "", 0, 0) >>]]}
+             \cup {[kind |-> "seq", disk |-> LongDisk, label |-> "longname",
+                    setup |-> << C("OpenArchive", 0, "A", 0, 0) >>,
+                    prog |-> [T1 |-> << C("HasFile", 1, LongNames[i], 0, 0), C("OpenFileEx", 1, LongNames[i], 0, 0),
+                                        C("GetFileName", 2, "", 0, 0), C("GetFileName", 2, "", 0, 1), C("ReadFile", 2, "", 5, 0),
+                                        C("ExtractFile", 1, LongNames[i], 0, 0), C("VerifyFile", 1, LongNames[i], 0, 0) >>]] : i \in 1..4}
+EnumCases == <<FillCase>> \o SetToSeq(ForgedCases) \o SetToSeq(LongCases) \o SetToSeq(LockOrderCases) \o SetToSeq(ThreeArch) \o SetToSeq(AllocChains) \o SetToSeq(BigCases)
              \o SetToSeq({ECase(<<CallRec(p[1]), CallRec(p[2])>>, "closepair") : p \in ClosePairs})
              \o SetToSeq({ECase(<<CallRec(p[1]), CallRec(p[2])>>, "cursorpair") : p \in CursorPairs}) \o SetToSeq({ECase(<<CallRec(c)>>, "single") : c \in Singles})
              \o SetToSeq({ECase(<<CallRec(p[1]), CallRec(p[2])>>, "pair") : p \in Pairs})
